@@ -1,4 +1,4 @@
-CONSTANTS Hosts <- H4  Weights <- WCh  StratSet <- SCh  WtSet <- BoolBoth  RefreshLists <- Lists1x  Codes <- C1
+CONSTANTS Hosts <- H4  Types <- TStatic  Weights <- WCh  StratSet <- SCh  WtSet <- BoolBoth  RefreshLists <- Lists1x  Codes <- C1
 SPECIFICATION Spec
 INVARIANTS TypeOK SelectsMember ErrorIffNoneEligible NoneEligibleMeans Rotation WeightedCycle CycleCoversAll
 CHECK_DEADLOCK FALSE
